@@ -152,6 +152,7 @@ func TestC30SQL(t *testing.T) {
 			st.Class("roundtrip-convert-using")
 			m := model(c.enc, []byte(s))
 			raw := c.enc.EncodeReplaceUnknown(exact([]byte(s)))
+			rawDecoded, _ := c.enc.Decode(exact(raw))
 			q := fmt.Sprintf("SELECT CONVERT(CONVERT(%s USING %s) USING utf8mb4)", sqlLit(s), name)
 			r := exec(q)
 			if r.Panic != nil {
@@ -162,11 +163,13 @@ func TestC30SQL(t *testing.T) {
 			if !ok || got != want {
 				// signature of C30-convert-using-raw: the engine handed out the raw bytes of
 				// the target character set as if they were its internal (utf8mb4) string
-				if ok && got == string(raw) && string(raw) != want && kf.Suppress(st, kfConvertRaw) {
+				// (observable when those bytes differ from the text they stand for)
+				if ok && got == string(raw) && string(raw) != string(rawDecoded) && kf.Suppress(st, kfConvertRaw) {
 					break
 				}
-				// the raw bytes may additionally be a wrong image (C30-eru-swallow)
-				if ok && got == string(raw) && swallowSignature(m, raw) && kf.Suppress(st, kfERUSwallow) {
+				// C30-eru-swallow: the engine's own EncodeReplaceUnknown image, raw or decoded,
+				// which lacks the tail behind an unrepresentable character
+				if ok && (got == string(raw) || got == string(rawDecoded)) && swallowSignature(m, raw) && kf.Suppress(st, kfERUSwallow) {
 					break
 				}
 				rt.Fatalf("%s\n  -> %s\n  want %q (into %s and back; unrepresentable characters as '?')", q, r, want, name)
@@ -179,6 +182,7 @@ func TestC30SQL(t *testing.T) {
 			st.Class("hex-convert-using")
 			m := model(c.enc, []byte(s))
 			raw := c.enc.EncodeReplaceUnknown(exact([]byte(s)))
+			rawDecoded, _ := c.enc.Decode(exact(raw))
 			q := fmt.Sprintf("SELECT HEX(CONVERT(%s USING %s))", sqlLit(s), name)
 			r := exec(q)
 			if r.Panic != nil {
@@ -187,7 +191,7 @@ func TestC30SQL(t *testing.T) {
 			got, ok := val(r)
 			want := strings.ToUpper(hex.EncodeToString(m.replaced))
 			if !ok || got != want {
-				if string(raw) != string(m.decoded) {
+				if string(raw) != string(rawDecoded) {
 					// C30-convert-using-raw: HEX re-encodes the raw bytes a second time
 					twice, fp := scan(c.enc, raw)
 					if ((fp >= 0 && r.Failed()) || (fp < 0 && ok && got == strings.ToUpper(hex.EncodeToString(twice)))) && kf.Suppress(st, kfConvertRaw) {
